@@ -286,7 +286,9 @@ class MUSE(BaseClassifier):
 
         # On each dimension, perform SFA
         for ind, column in enumerate(self.col_names):
-            X_dim = X[[column]]
+            # select the dimension by position, the column names of the data passed
+            # here need not be those seen in fit (e.g. 3d numpy array input)
+            X_dim = X.iloc[:, [ind]]
             X_dim = from_nested_to_3d_numpy(X_dim)
 
             for i, window_size in enumerate(self.window_sizes[ind]):
